@@ -102,6 +102,22 @@ CHECKS["C06"] = dict(
     technique="Coq proof (control machines over all event traces) + extraction-based trace acceptance and direct drives + leak predicates on real runs in fresh event loops",
     design="4/C06")
 
+CHECKS["C17"] = dict(
+    text="Coq theorems over a definition-list model of print_schema / build_ast_schema: build(sdl_of s) = s for every schema with a query root (all kinds/members/defaults/descriptions/deprecations/directives/roots in order), print idempotence for every schema, kind-independent schema-block omission rule, no changes under C19's detector; tie: extracted sdl_of = parse(print_schema s) as AST and extracted build = build_schema on every generated case; the property's laws evaluated directly on SDL-built and programmatic schemas over adversarial texts, description probes at every site and default-value probes",
+    note="C17_build_sdl_of_partial: the text level (block/quoted string and literal printing/lexing) is not in this model; it is covered by the direct laws here and by C08's theorems; deprecated directive definitions are rebuilt with the experimental parser flag; programmatic schemas list the specified directives; no lone surrogates",
+    technique="Coq proof (definition-list model of print_schema/build_ast_schema) + extraction-based correspondence + direct round-trip laws",
+    design="4/C17")
+CHECKS["C18"] = dict(
+    text="Coq theorems over a JSON model of the introspection result: the result under any of the 2^7 option combinations = prune of the full result; __type(name) = the type-list entry; build_client(introspect s full) = s and re-introspection is identical (for a round-tripping literal printer/parser, <= 9 type wrappers, kind-canonical containers); tie: extracted introspect/prune/type_lookup/build_client vs the implementation; direct: every sampled combination validates/executes without errors/conforms to the introspection types/equals prune(full), lookups, ad-hoc selections with random includeDeprecated vs projection of the full result, client schema prints/diffs/dumps/re-introspects identically",
+    note="round-trip theorems are _partial: default values are carried as print_ast text (printer/parser is a hypothesis), <= 9 wrappers; conformance to the introspection types is checked on the implementation, not proved; quick samples 18 of the 128 combinations per schema (thorough: all 128)",
+    technique="Coq proof (JSON model of introspection, prune, build_client) + extraction-based correspondence + direct laws",
+    design="4/C18")
+CHECKS["C19"] = dict(
+    text="Coq theorems over sort/diff/extend/build models (sort order a parameter, the implementation's natural order proved total): sort permutes every container and changes nothing else, is idempotent, diff is reflexive and order-insensitive, sorting introduces no diff, every reported change of every kind has a witness difference (C19_diff_sound), no-op extension is the identity, extend(build A, B) = build(A ++ B) in any definition order incl. operation types; tie: natural order, sort (exact container orders), diff (change-kind multisets on single-edit mutants), build and extend vs the implementation; direct: extend_schema vs build_schema on shuffled extension documents, original unchanged, identity object on executable-only documents, sort/diff laws, reported change implies printed forms differ",
+    note="C19_extend_hom_partial: directive extensions and directive-only type extensions (@specifiedBy/@oneOf) not modelled; new types named Query/Mutation/Subscription excluded (build_schema adopts them as roots by convention, extend_schema does not - same as graphql-js); change places are tied by the theorem on the model, kinds by the mutants",
+    technique="Coq proof (sort/diff/extend/build models) + extraction-based correspondence + direct algebraic laws",
+    design="4/C19")
+
 NOT_YET = {}
 
 
